@@ -101,7 +101,9 @@ class SendCheckModel(Monitor):
         t = rec.t
         eofs = [e for e in rec.emitted if e.kind == "EOF"]
         if self.deadline is None:
-            if eofs and eofs[0].info[1] == 0 and rec.post.step == "WAITING_FOR_FINISHED":
+            # the check timer runs from the moment the sender starts to wait for the Finished PDU (after its EOF; a
+            # metadata-only transaction has no EOF and waits right after the Metadata PDU)
+            if rec.post.step == "WAITING_FOR_FINISHED" and rec.pre.step != "WAITING_FOR_FINISHED" and not (eofs and eofs[0].info[1] != 0):
                 self.deadline = t + self.ms
             return
         lim = [f for f in rec.faults if f[2] == CHECK_LIMIT]
@@ -128,7 +130,7 @@ def run_one(t):
     f = {"mode": UNACK, "shell": "history", "metadata_only": False, "ck": CK_TYPES[t.choose(2, "crc type")],
          "poll_ms": [100, 50, 200, 250][t.choose(4, "poll")], "size_sel": [0, 6, 7, 5][t.choose(4, "size")]}
     if sender_case:
-        f.update({"closure": True, "check_s_recv": BIG})
+        f.update({"closure": True, "check_s_recv": BIG, "metadata_only": t.choose(4, "metadata only") == 3})
     else:
         f.update({"check_s_send": BIG})
     cfg = Cfg.draw(t, f)
